@@ -9,8 +9,12 @@ import TlxVerif.Model.C19Split
 import TlxVerif.Model.C19Helpers
 import TlxVerif.Model.C19Spec
 import TlxVerif.Proofs.C19Codec
+import TlxVerif.Proofs.C19Split
+import TlxVerif.Proofs.C19Quoted
+import TlxVerif.Proofs.C19Helpers
 namespace TlxVerif.C19
 open TlxVerif.C18 (Bytes npos)
+open TlxVerif.C18
 
 /-! ## base64 -/
 
@@ -95,5 +99,182 @@ theorem hexdump_lc_is_base16 (s : Bytes) : hexdumpLc s = Spec.base16 Spec.hexDig
 
 example : hexdump [0, 255, 16] = [48, 48, 70, 70, 49, 48] ∧ parseHexdump [48, 48, 102, 70, 49, 48] = some [0, 255, 16] := by
   decide
+
+/-! ## split ∘ join -/
+
+/-- `split(sep, join(sep, parts)) = parts` for a non-empty separator and a non-empty part list
+when no separator starts inside a part of the joined text (`SepFree`, Proofs/C19Split.lean:
+"the separator neither occurs in nor straddles the parts"), for every `limit` that admits
+all parts (in particular the default `npos`).  Fails on the pinned tree (D18, D19). -/
+theorem split_join (sep : Bytes) (parts : List Bytes) (limit : Nat) (hsep : sep ≠ []) (hne : parts ≠ [])
+    (hlim : parts.length ≤ limit) (hfree : SepFree sep parts) :
+    splitStr sep (join sep parts) limit = parts := by
+  unfold splitStr
+  have h0 : ¬ limit = 0 := by
+    have : 0 < parts.length := List.length_pos_iff.mpr hne
+    omega
+  have he : sep.isEmpty = false := by
+    cases sep with
+    | nil => exact absurd rfl hsep
+    | cons _ _ => rfl
+  rw [if_neg h0, he]
+  simp only [Bool.false_eq_true, if_false]
+  rw [splitStrLoop_join sep limit hsep parts [] 0 hne (by omega) hfree]
+  cases parts with
+  | nil => exact absurd rfl hne
+  | cons p ps => simp [prependFirst]
+
+/-- a sufficient condition that is easy to check: no byte of a part occurs in the separator -/
+theorem sepFree_of_disjoint (sep : Bytes) (hsep : sep ≠ []) : ∀ parts : List Bytes,
+    (∀ p, p ∈ parts → ∀ b, b ∈ p → b ∉ sep) → SepFree sep parts
+  | [], _ => trivial
+  | [p], h => by
+    intro k hk
+    rw [List.drop_eq_getElem_cons hk]
+    cases sep with
+    | nil => exact absurd rfl hsep
+    | cons s0 st =>
+      have : p[k] ∉ s0 :: st := h p (by simp) _ (List.getElem_mem hk)
+      simp only [List.isPrefixOf, Bool.and_eq_false_imp, beq_iff_eq]
+      intro e; exact absurd (by simp [e]) this
+  | p :: q :: ps, h => by
+    refine ⟨?_, sepFree_of_disjoint sep hsep (q :: ps) (fun x hx => h x (by simp [hx]))⟩
+    intro k hk
+    have hk' : k < (p ++ (sep ++ join sep (q :: ps))).length := by simp; omega
+    rw [List.drop_eq_getElem_cons hk', List.getElem_append_left hk]
+    cases sep with
+    | nil => exact absurd rfl hsep
+    | cons s0 st =>
+      have : p[k] ∉ s0 :: st := h p (by simp) _ (List.getElem_mem hk)
+      simp only [List.isPrefixOf, Bool.and_eq_false_imp, beq_iff_eq]
+      intro e; exact absurd (by simp [e]) this
+
+/-- the `char` overload: parts that do not contain the separator byte -/
+theorem splitChar_join (c : UInt8) (parts : List Bytes) (limit : Nat) (hne : parts ≠ [])
+    (hlim : parts.length ≤ limit) (h : ∀ p, p ∈ parts → c ∉ p) :
+    splitChar c (join [c] parts) limit = parts := by
+  rw [splitChar_eq_splitStr]
+  exact split_join [c] parts limit (by simp) hne hlim (sepFree_char c parts h)
+
+example : splitStr [58, 58] (join [58, 58] [[97], [], [98]]) npos = [[97], [], [98]] :=
+  split_join [58, 58] [[97], [], [98]] npos (by decide) (by decide) (by decide)
+    (sepFree_of_disjoint _ (by decide) _ (by decide))
+
+/-! ## split_quoted ∘ join_quoted -/
+
+/-- `split_quoted(join_quoted(v)) = v` for every vector of byte strings (including empty fields,
+fields that begin with a quote, fields containing separators, quotes, escapes, \n \r \t)
+whenever the three special characters are pairwise different and quote / escape are not one of
+the letters n r t (`QuoteChars`).  Fails on the pinned tree (D20). -/
+theorem split_quoted_join_quoted (sep quote esc : UInt8) (H : QuoteChars sep quote esc) (v : List Bytes) :
+    splitQuoted (joinQuoted v sep quote esc) sep quote esc = some v :=
+  sq_join H v
+
+/-- the default characters `' '`, `'"'`, `'\\'` satisfy the hypotheses -/
+theorem quoteChars_default : QuoteChars 32 34 92 := by
+  constructor <;> decide
+
+theorem split_quoted_join_quoted_default (v : List Bytes) :
+    splitQuoted (joinQuoted v 32 34 92) 32 34 92 = some v :=
+  split_quoted_join_quoted 32 34 92 quoteChars_default v
+
+example : joinQuoted [[], [34, 97], [97, 32, 10]] 32 34 92 =
+    [34, 34, 32, 34, 92, 34, 97, 34, 32, 34, 97, 32, 92, 110, 34] := by decide
+
+/-! ## case conversion and case-insensitive comparison -/
+
+/-- `to_lower` / `to_upper` change exactly the ASCII letters -/
+theorem toLower_eq (c : UInt8) : toLower c = if 65 ≤ c ∧ c ≤ 90 then c + 32 else c := toLower_spec c
+theorem toUpper_eq (c : UInt8) : toUpper c = if 97 ≤ c ∧ c ≤ 122 then c - 32 else c := toUpper_spec c
+
+/-- `compare_icase` is `strcmp` (unsigned bytes, prefix smaller) of the lowered strings; all four
+overloads run this loop.  Fails on the pinned tree (D21 sign for a proper prefix, D22 signed bytes). -/
+theorem compare_icase_eq (a b : Bytes) : compareIcase a b = Spec.compare (a.map toLower) (b.map toLower) :=
+  compareIcase_eq a b
+
+/-- `equal_icase`: the `const char*` loops and the `string_view` version -/
+theorem equal_icase_loop_eq (a b : Bytes) : equalIcaseLoop a b = (a.map toLower == b.map toLower) :=
+  equalIcaseLoop_eq a b
+
+theorem equal_icase_view_eq (a b : Bytes) : equalIcaseView a b = (a.map toLower == b.map toLower) := by
+  unfold equalIcaseView
+  by_cases h : a.length = b.length
+  · simp only [h, ne_eq, not_true_eq_false, if_false]
+    exact stdEqualBy_icase_eq a b h
+  · simp only [ne_eq, h, not_false_eq_true, if_true]
+    symm
+    apply beq_eq_false_iff_ne.mpr
+    intro e
+    have := congrArg List.length e
+    simp at this
+    exact h this
+
+/-- `less_icase`: `<` of the lowered strings as unsigned bytes -/
+theorem less_icase_loop_eq (a b : Bytes) : lessIcaseLoop a b = Spec.lt (a.map toLower) (b.map toLower) :=
+  lessIcaseLoop_eq a b
+theorem less_icase_view_eq (a b : Bytes) : lessIcaseView a b = Spec.lt (a.map toLower) (b.map toLower) :=
+  lessIcaseView_eq a b
+
+example : compareIcase [97] [65, 98] = -1 ∧ compareIcase [0x80] [97] = 1 ∧ equalIcaseLoop [97, 66] [65, 98] = true := by
+  decide
+
+/-! ## starts_with / ends_with -/
+
+theorem starts_with_eq (str m : Bytes) : startsWith str m = m.isPrefixOf str := by
+  unfold startsWith
+  by_cases h : m.length > str.length
+  · simp only [h, if_true]
+    symm
+    cases hp : m.isPrefixOf str
+    · rfl
+    · have := (List.isPrefixOf_iff_prefix.mp hp).length_le
+      omega
+  · simp only [h, if_false]
+    rw [Bool.eq_iff_iff, stdEqual_iff_prefix, List.isPrefixOf_iff_prefix]
+
+theorem ends_with_eq (str m : Bytes) : endsWith str m = m.isSuffixOf str := by
+  unfold endsWith
+  by_cases h : m.length > str.length
+  · simp only [h, if_true]
+    symm
+    cases hp : m.isSuffixOf str
+    · rfl
+    · have := (List.isSuffixOf_iff_suffix.mp hp).length_le
+      omega
+  · simp only [h, if_false]
+    have hlen : m.length = (str.drop (str.length - m.length)).length := by simp; omega
+    rw [Bool.eq_iff_iff, stdEqual_iff_eq _ _ hlen, List.isSuffixOf_iff_suffix]
+    constructor
+    · intro e; rw [e]; exact List.drop_suffix _ _
+    · intro hs
+      obtain ⟨t, ht⟩ := hs
+      subst ht
+      simp
+
+example : startsWith [97, 98, 99] [97, 98] = true ∧ endsWith [97, 98, 99] [98, 99] = true ∧
+    endsWith [97] [98, 97] = false := by decide
+
+/-! ## erase_all (copy), pad -/
+
+theorem erase_all_copy_eq : ∀ s drop : Bytes, eraseAllCopy s drop = s.filter (fun c => !drop.contains c)
+  | [], _ => by simp [eraseAllCopy]
+  | c :: t, drop => by
+    simp only [eraseAllCopy, List.filter_cons]
+    cases h : drop.contains c <;> simp [erase_all_copy_eq t drop]
+
+/-- `pad`: truncated to `len` or filled up to `len` with the pad character -/
+theorem pad_eq (s : Bytes) (len : Nat) (c : UInt8) :
+    pad s len c = if len ≤ s.length then s.take len else s ++ List.replicate (len - s.length) c := by
+  unfold pad
+  by_cases h : len ≤ s.length
+  · simp [h, Nat.min_eq_right h, List.length_take]
+  · have h' : s.length ≤ len := by omega
+    simp [h, Nat.min_eq_left h', List.take_length]
+
+theorem pad_length (s : Bytes) (len : Nat) (c : UInt8) : (pad s len c).length = len := by
+  rw [pad_eq]
+  split
+  · simp [List.length_take]; omega
+  · simp; omega
 
 end TlxVerif.C19
